@@ -88,6 +88,10 @@ def case_array(c):
         for comp in (compositions_gt(N, mx) if not c.get('comps') else [tuple(x) for x in c['comps']]):
             cuts = range(1, len(comp)) if c['all_cuts'] else ([1] if len(comp) > 1 else [])
             schedules = [(None, None)] + [(cut, op) for cut in cuts for op in clock_ops[1:]]
+            if mx >= 1:
+                # a request the array refuses (not larger than the largest delay), before the first request and mid-observation:
+                # it is not a request -- the timeline and the alignment simply continue
+                schedules += [(cut, ('refuse', k)) for cut in ([0] + list(cuts)[:1]) for k in sorted(set([1, mx]))]
             for cut, op in schedules:
                 arr = build(c, noise_bg)
                 clock = float(c['t_start'])      # exact: integer-valued times at 1 Hz
@@ -98,7 +102,17 @@ def case_array(c):
                 start = True
                 ok = True
                 for j, req in enumerate(comp):
-                    if cut is not None and j == cut:
+                    if cut is not None and j == cut and op[0] == 'refuse':
+                        try:
+                            arr.get_samples(op[1])
+                        except Exception:
+                            pass
+                        if arr.t_start != clock:
+                            V('refused_request_moved_clock', 'a refused request of %d samples (max delay %d) moved the array clock %r -> %r'
+                              % (op[1], mx, clock, arr.t_start), dict(composition=list(comp), cut=cut, op=list(op)))
+                            ok = False
+                            break
+                    elif cut is not None and j == cut:
                         if op[0] == 'bgupd':
                             # re-estimating the background's noise level in the middle of an observation is not a clock
                             # operation: the timeline and the alignment simply continue
